@@ -250,23 +250,46 @@ fn same_commands(got: &[hyeong::core::code::UnOptCode], cmds: &[RCmd], sig: &str
     Ok(())
 }
 
-/// parse one line of the `check` listing: (index, line, col, kind, h, d, area)
-fn parse_listing_line(line: &str, file_name: &str) -> Option<(usize, usize, usize, u8, usize, usize, RArea)> {
-    let (idx, rest) = line.split_once(" | ")?;
-    let idx: usize = idx.trim().parse().ok()?;
-    let rest = rest.strip_prefix(file_name)?.strip_prefix(':')?;
-    let (l, rest) = rest.split_once(':')?;
-    let l: usize = l.parse().ok()?;
-    let col_end = rest.find(|c: char| !c.is_ascii_digit())?;
-    let col: usize = rest[..col_end].parse().ok()?;
-    let rest = rest[col_end..].trim_start_matches(' ');
-    let mut it = rest.chars();
-    let kc = it.next()?;
-    let kind = ONE_SYLLABLE.iter().position(|&c| c == kc)? as u8;
-    let rest = it.as_str().strip_prefix('_')?;
-    let (h, rest) = rest.split_once('_')?;
-    let (d, area) = rest.split_once(' ')?;
-    Some((idx, l, col, kind, h.parse().ok()?, d.parse().ok()?, RArea::parse_infix(area)?))
+/// parse one line of the `check` listing: (index, line, col, kind, h, d, area).
+/// Tolerant of the cosmetic parts (separators, padding, file name): the index is the leading integer, the command is the first
+/// `<syllable>_<digits>_<digits> <area>` token, line and column are the last two `:`-separated integers in front of it.
+fn parse_listing_line(line: &str, _file_name: &str) -> Option<(usize, usize, usize, u8, usize, usize, RArea)> {
+    let t = line.trim_start();
+    let digits: String = t.chars().take_while(|c| c.is_ascii_digit()).collect();
+    let idx: usize = digits.parse().ok()?;
+    let chars: Vec<(usize, char)> = line.char_indices().collect();
+    for (n, &(pos, c)) in chars.iter().enumerate() {
+        let kind = match ONE_SYLLABLE.iter().position(|&k| k == c) {
+            Some(k) => k as u8,
+            None => continue,
+        };
+        let rest = &line[pos + c.len_utf8()..];
+        let rest = match rest.strip_prefix('_') {
+            Some(r) => r,
+            None => continue,
+        };
+        let (h, rest) = match rest.split_once('_') {
+            Some(x) => x,
+            None => continue,
+        };
+        let (d, area) = match rest.split_once(' ') {
+            Some(x) => x,
+            None => continue,
+        };
+        let (h, d) = match (h.parse::<usize>(), d.parse::<usize>()) {
+            (Ok(h), Ok(d)) => (h, d),
+            _ => continue,
+        };
+        let area = RArea::parse_infix(area.trim_end())?;
+        // location: "...:<line>:<col><padding>" right in front of the command token
+        let before = line[..pos].trim_end();
+        let mut parts = before.rsplitn(3, ':');
+        let col: usize = parts.next()?.trim().parse().ok()?;
+        let l: usize = parts.next()?.trim().parse().ok()?;
+        let _ = n;
+        return Some((idx, l, col, kind, h, d, area));
+    }
+    None
 }
 
 pub fn check_with(ctx_bin: Option<(&std::path::Path, &std::path::Path)>, c: &Case8, st: &mut Stats) -> CheckResult {
@@ -347,7 +370,9 @@ pub fn check_with(ctx_bin: Option<(&std::path::Path, &std::path::Path)>, c: &Cas
             }
             ensure!(o.status == proc::Status::Code(0), "c08:check-status", "`hyeong check` ended with {:?}, stderr {:?}", o.status, o.err_str());
             let out = o.out_str();
-            let body = out.strip_prefix(&format!("==> parsing {}\n", file.display())).unwrap_or(&out);
+            // listing lines are the lines that start with an index; whatever else the tool logs is not compared
+            let body: String = out.lines().filter(|l| l.trim_start().chars().next().map(|c| c.is_ascii_digit()).unwrap_or(false)).map(|l| format!("{}\n", l)).collect();
+            let body = body.as_str();
             let parsed = ref_parse(&text);
             let lines: Vec<&str> = body.lines().collect();
             // a command's line cannot contain a newline, so lines = commands
